@@ -65,7 +65,7 @@ theorem C09_no_panic (inp : Input) (h : WF09 inp = true) (N : List String) :
         simp only [Bool.and_eq_true, beq_iff_eq] at hb
         exact hb.1))
     simp only [List.nil_append] at this
-    simp only [bind, Except.bind, this, ofExcept, idealTo, List.nil_append]
+    simp only [bind, Except.bind, this, ofExcept, idealTo, idealStart, hctor.1, List.nil_append]
   · intro recv
     unfold execFrom execFromP
     simp only [Bool.false_eq_true, ↓reduceIte, hctor.2]
@@ -78,7 +78,7 @@ theorem C09_no_panic (inp : Input) (h : WF09 inp = true) (N : List String) :
         intro hb
         simpa using hb))
     simp only [List.nil_append] at this
-    simp only [bind, Except.bind, this, ofExcept, idealFrom, List.nil_append]
+    simp only [bind, Except.bind, this, ofExcept, idealFrom, idealStart, hctor.2, List.nil_append]
 
 /-- headline: the result of FromX does not depend on the receiver (nil, freshly allocated, or dirty) -/
 theorem C09_reset (inp : Input) (h : WF09 inp = true) (N : List String) (r₁ r₂ : Recv) :
